@@ -120,6 +120,7 @@ package oidc
 // A-TIME: the clock is non-decreasing; Clk is the last instant it returned
 //@ func (*Clock).Now
 //@   abstractbody
+//@   lockfree
 //@   modifies ghost Clk
 //@   ensures  mono: result >= old(Clk) && Clk == result && result > TZERO + SECOND && result <= ROpEnd
 
@@ -258,3 +259,14 @@ package oidc
 //@   loop 1 invariant wired1: forall i int, j int :: 0 <= i && i <= rangeindex1 && 0 <= j && j < len(s.Config.Chains[i].Filters) && s.Config.Chains[i].Filters[j].GetOidc() != nil ==> s.Get(s.Config.Chains[i].Filters[j].GetOidc()) != nil && StoreAbs(s.Get(s.Config.Chains[i].Filters[j].GetOidc())) == s.Config.Chains[i].Filters[j].GetOidc().GetAbsoluteSessionTimeout() * SECOND && StoreIdle(s.Get(s.Config.Chains[i].Filters[j].GetOidc())) == s.Config.Chains[i].Filters[j].GetOidc().GetIdleSessionTimeout() * SECOND
 //@   loop 2 invariant wired1: forall i int, j int :: 0 <= i && i <= rangeindex1 && 0 <= j && j < len(s.Config.Chains[i].Filters) && s.Config.Chains[i].Filters[j].GetOidc() != nil ==> s.Get(s.Config.Chains[i].Filters[j].GetOidc()) != nil && StoreAbs(s.Get(s.Config.Chains[i].Filters[j].GetOidc())) == s.Config.Chains[i].Filters[j].GetOidc().GetAbsoluteSessionTimeout() * SECOND && StoreIdle(s.Get(s.Config.Chains[i].Filters[j].GetOidc())) == s.Config.Chains[i].Filters[j].GetOidc().GetIdleSessionTimeout() * SECOND
 //@   loop 2 invariant wired2: forall j int :: 0 <= j && j <= rangeindex2 && s.Config.Chains[rangeindex1 + 1].Filters[j].GetOidc() != nil ==> s.Get(s.Config.Chains[rangeindex1 + 1].Filters[j].GetOidc()) != nil && StoreAbs(s.Get(s.Config.Chains[rangeindex1 + 1].Filters[j].GetOidc())) == s.Config.Chains[rangeindex1 + 1].Filters[j].GetOidc().GetAbsoluteSessionTimeout() * SECOND && StoreIdle(s.Get(s.Config.Chains[rangeindex1 + 1].Filters[j].GetOidc())) == s.Config.Chains[rangeindex1 + 1].Filters[j].GetOidc().GetIdleSessionTimeout() * SECOND
+
+// ---------------------------------------------------------------------------------------------
+// lock discipline (C16): which lock protects which shared location
+// ---------------------------------------------------------------------------------------------
+
+//@ guarded field memoryStore.sessions by addr(this.mu)
+// the process-wide discovery cache is shared by all checks and has no lock
+//@ frozen global wellKnownConfigs
+// the factory's stores are created at start-up (PreRun, before serving) and only read afterwards
+//@ frozen field sessionStoreFactory.redis
+//@ frozen field sessionStoreFactory.memory
